@@ -450,6 +450,12 @@ type FuncSpec struct {
 	Ensures   []Clause
 	Modifies  []string
 	Loops     map[int]*LoopSpec
+	// LoopCount ("loops N"): the number of loops the function had when its
+	// loop contracts were written.  Loop contracts are keyed by ordinal, so
+	// when a loop is added, removed or moved into a helper the clauses would
+	// land on the wrong loops: a different count makes the function's proof
+	// undecided instead (0 = not recorded).
+	LoopCount int
 	Panics    string // "never" (default) | "may"
 	PanicWhen []Clause
 	Lets      []ParamDecl // let name = expr (Type holds the source)
@@ -537,7 +543,7 @@ func newContractSet() *ContractSet {
 var clauseKeywords = map[string]bool{
 	"requires": true, "ensures": true, "modifies": true, "loop": true, "invariant": true,
 	"decreases": true, "func": true, "extern": true, "spec": true, "lemma": true, "pure": true,
-	"inline": true, "panics": true, "trusted": true, "induction": true, "use": true, "def": true, "call": true, "apply": true, "apply_head": true, "apply_exit": true, "opaque": true, "embedded": true, "guarded": true, "callback": true, "monitor": true, "check_at_store": true, "assume_invariant": true, "residual": true, "result_is": true, "from": true, "models": true, "hidden": true, "reveal": true, "logged": true, "may_panic": true, "recovers": true, "at_call": true, "step": true, "using": true,
+	"inline": true, "panics": true, "trusted": true, "induction": true, "use": true, "def": true, "call": true, "apply": true, "apply_head": true, "apply_exit": true, "opaque": true, "embedded": true, "guarded": true, "callback": true, "monitor": true, "check_at_store": true, "assume_invariant": true, "residual": true, "result_is": true, "from": true, "models": true, "hidden": true, "reveal": true, "logged": true, "may_panic": true, "recovers": true, "at_call": true, "step": true, "using": true, "loops": true,
 }
 
 // AtCall is one at_call clause.
@@ -839,6 +845,15 @@ func (cs *ContractSet) parseContractText(text, pkgPath, file string) error {
 			} else if curF != nil {
 				curF.Modifies = append(curF.Modifies, names...)
 			}
+		case "loops":
+			if curF == nil {
+				return fmt.Errorf("%s: loops outside func", file)
+			}
+			n, err := strconv.Atoi(strings.TrimSpace(rest))
+			if err != nil || n < 0 {
+				return fmt.Errorf("%s: bad loop count %q", file, rest)
+			}
+			curF.LoopCount = n
 		case "loop":
 			if curF == nil {
 				return fmt.Errorf("%s: loop outside func", file)
